@@ -13,7 +13,8 @@
                   dict(keys, vals) not(e) neg(e) pos(e) inv(e) and(l,r) or(l,r) if(c,t,f)
                   bin(op,l,r) index(e,i) slice(e,lo,hi,st) lambda(params,body)
                   compr(elt,clauses) dictcompr(key,val,clauses) call(f,args,named,star,starstar)
-                  mcall(obj,name,args,named) ; optional parts are [k|->"absent"]
+                  mcall(obj,name,args,named) dot(e,name,ncp) fstr(lits,names) ; optional parts are
+                  [k|->"absent"].  fstr: lits has one more element than names: lit0 {n1} lit1 ... 
      clauses      for(tg,it) cif(c)
      statements   expr(e) assign(tg,e) aug(op,tg,e) if(c,then,else) for(tg,it,body) break continue
                   pass return(e) def(name,params,body)
@@ -21,10 +22,10 @@
      params       [n, kind \in {"normal","args","kwonly","kwargs"}, d (default expr or absent)]
 
    Error kinds are abstract: div0 index key type unbound arity immutable iter_mutation fail depth
-   not_hashable value attr; "spec_domain" marks a program that left the domain in which this
+   not_hashable value attr format; "spec_domain" marks a program that left the domain in which this
    specification is defined (integer magnitude, repr of exotic values): such a case is discarded,
    never judged. *)
-EXTENDS Values, SequencesExt
+EXTENDS StrOps, SequencesExt
 
 Ok(m) == m.err.kind = ""
 Raise(m, kind, line) == IF Ok(m) THEN [m EXCEPT !.err = [kind |-> kind, line |-> line]] ELSE m
@@ -57,7 +58,8 @@ IntOk(i) == i > -Limit /\ i < Limit
 RInt(m, i, line) == IF IntOk(i) THEN R(m, IntV(i)) ELSE R(Raise(m, "spec_domain", line), NoneV)
 
 Builtins == {"set", "len", "range", "list", "tuple", "bool", "int", "str", "repr", "type", "sorted",
-             "reversed", "enumerate", "zip", "min", "max", "any", "all", "abs", "fail", "emit", "dict"}
+             "reversed", "enumerate", "zip", "min", "max", "any", "all", "abs", "fail", "emit", "dict",
+             "struct", "chr", "ord", "getattr", "hasattr"}
 
 (* ------------------------------------------------------------------ names and frames *)
 NameIdx(names, n) == IF \E i \in 1..Len(names) : names[i] = n
@@ -135,6 +137,15 @@ RemoveIdx(s, i) == SubSeq(s, 1, i - 1) \o SubSeq(s, i + 1, Len(s))
 InsertIdx(s, i, x) == SubSeq(s, 1, i - 1) \o <<x>> \o SubSeq(s, i, Len(s))   \* x becomes s'[i]
 
 (* ------------------------------------------------------------------ binary operators *)
+(* sets keep insertion order: | appends the new elements of r; & and - keep l's order; ^ is
+   (l - r) followed by (r - l) *)
+SetOp(op, xs, ys, h) ==
+    LET inY(x) == DictFindIn(ys, x, h) # 0
+        inX(y) == DictFindIn(xs, y, h) # 0
+    IN IF op = "|" THEN xs \o SelectSeq(ys, LAMBDA y : ~inX(y))
+       ELSE IF op = "&" THEN SelectSeq(xs, inY)
+       ELSE IF op = "-" THEN SelectSeq(xs, LAMBDA x : ~inY(x))
+       ELSE SelectSeq(xs, LAMBDA x : ~inY(x)) \o SelectSeq(ys, LAMBDA y : ~inX(y))
 RepeatSeq(s, n) == IF n <= 0 THEN <<>> ELSE [i \in 1..(n * Len(s)) |-> s[((i - 1) % Len(s)) + 1]]
 
 In(x, c, m, line) ==       \* x in c
@@ -160,6 +171,7 @@ BinOp(op, l, r, m, line) ==
     IN
     IF op = "==" THEN R(m, BoolV(Eq(l, r, h)))
     ELSE IF op = "!=" THEN R(m, BoolV(~Eq(l, r, h)))
+    ELSE IF op \in {"<", "<=", ">", ">="} /\ l.t = "struct" /\ r.t = "struct" THEN R(Raise(m, "spec_domain", line), NoneV)
     ELSE IF op \in {"<", "<=", ">", ">="} THEN
         (LET c == Cmp(l, r, h) IN
          IF c = "err" THEN TErr
@@ -174,10 +186,24 @@ BinOp(op, l, r, m, line) ==
          ELSE IF l.t = "tuple" /\ r.t = "tuple" THEN R(m, TupV(l.v \o r.v))
          ELSE IF IsList(l, h) /\ IsList(r, h) THEN NewList(m, h[l.a].items \o h[r.a].items)
          ELSE TErr)
-    ELSE IF op \in {"&", "|", "^", "<<", ">>"} THEN R(Raise(m, "spec_domain", line), NoneV)
+    ELSE IF op \in {"&", "|", "^"} THEN
+        (IF l.t = "int" /\ r.t = "int" THEN
+            R(m, IntV(IF op = "&" THEN BitAnd(l.v, r.v) ELSE IF op = "|" THEN BitOr(l.v, r.v) ELSE BitXor(l.v, r.v)))
+         ELSE IF IsSet(l, h) /\ IsSet(r, h) THEN NewSet(m, SetOp(op, h[l.a].items, h[r.a].items, h))
+         ELSE IF op = "|" /\ IsDict(l, h) /\ IsDict(r, h) THEN
+            (LET d == DictFromPairs(h[r.a].keys, h[r.a].vals, 1, h[l.a].keys, h[l.a].vals, h) IN NewDict(m, d.keys, d.vals))
+         ELSE IF l.t = "bool" \/ r.t = "bool" THEN R(Raise(m, "spec_domain", line), NoneV)
+         ELSE TErr)
+    ELSE IF op = "<<" \/ op = ">>" THEN
+        (IF l.t # "int" \/ r.t # "int" THEN (IF l.t = "bool" \/ r.t = "bool" THEN R(Raise(m, "spec_domain", line), NoneV) ELSE TErr)
+         ELSE IF r.v < 0 THEN R(Raise(m, "value", line), NoneV)
+         ELSE IF op = ">>" THEN R(m, IntV(IF r.v >= 31 THEN (IF l.v < 0 THEN -1 ELSE 0) ELSE FloorDiv(l.v, Pow2(r.v))))
+         ELSE IF l.v = 0 THEN R(m, IntV(0))
+         ELSE IF r.v > 29 \/ Abs(l.v) >= Pow2(30 - r.v) THEN R(Raise(m, "spec_domain", line), NoneV)
+         ELSE R(m, IntV(l.v * Pow2(r.v))))
     ELSE IF op = "-" THEN
         (IF l.t = "int" /\ r.t = "int" THEN RInt(m, l.v - r.v, line)
-         ELSE IF IsSet(l, h) /\ IsSet(r, h) THEN R(Raise(m, "spec_domain", line), NoneV)
+         ELSE IF IsSet(l, h) /\ IsSet(r, h) THEN NewSet(m, SetOp("-", h[l.a].items, h[r.a].items, h))
          ELSE TErr)
     ELSE IF op = "*" THEN
         (IF l.t = "int" /\ r.t = "int" THEN
@@ -203,7 +229,9 @@ BinOp(op, l, r, m, line) ==
     ELSE IF op = "%" THEN
         (IF l.t = "int" /\ r.t = "int" THEN
             (IF r.v = 0 THEN R(Raise(m, "div0", line), NoneV) ELSE R(m, IntV(FloorMod(l.v, r.v))))
-         ELSE IF l.t = "str" THEN R(Raise(m, "spec_domain", line), NoneV)
+         ELSE IF l.t = "str" THEN
+            (LET f == Percent(l.s, r, h) IN
+             IF f.kind = "" THEN R(m, StrV(f.s)) ELSE R(Raise(m, f.kind, line), NoneV))
          ELSE TErr)
     ELSE TErr
 
@@ -287,6 +315,86 @@ Bind(params, defaults, pos, named, m) ==
 
 (* argument names travel as code point sequences (`ncp` in the AST, next to the string `n`), so
    that the keys of a ** mapping and of **kwargs are ordinary strings of the language. *)
+
+(* ------------------------------------------------------------------ attributes
+   x.name without a call: a field of a struct, or a method of x bound to x *)
+ListMethods == {"append", "extend", "insert", "pop", "remove", "clear", "index"}
+DictMethods == {"get", "keys", "values", "items", "pop", "popitem", "setdefault", "update", "clear"}
+SetMethods == {"add", "remove", "discard", "pop", "clear", "update", "union", "intersection", "difference",
+               "symmetric_difference", "issubset", "issuperset"}
+StrMethods == {"upper", "lower", "strip", "lstrip", "rstrip", "startswith", "endswith", "find", "rfind", "index",
+               "rindex", "count", "replace", "split", "rsplit", "join", "capitalize", "title", "isalnum", "isalpha",
+               "isdigit", "isspace", "islower", "isupper", "istitle", "partition", "rpartition", "splitlines",
+               "removeprefix", "removesuffix", "format", "elems", "codepoints"}
+MethodNames == <<"add", "append", "capitalize", "clear", "codepoints", "count", "difference", "discard", "elems", "endswith", "extend", "find", "format", "get", "index", "insert", "intersection", "isalnum", "isalpha", "isdigit", "islower", "isspace", "issubset", "issuperset", "istitle", "isupper", "items", "join", "keys", "lower", "lstrip", "partition", "pop", "popitem", "remove", "removeprefix", "removesuffix", "replace", "rfind", "rindex", "rpartition", "rsplit", "rstrip", "setdefault", "split", "splitlines", "startswith", "strip", "symmetric_difference", "title", "union", "update", "upper", "values">>
+MethodCPs == <<<<97, 100, 100>>,
+    <<97, 112, 112, 101, 110, 100>>,
+    <<99, 97, 112, 105, 116, 97, 108, 105, 122, 101>>,
+    <<99, 108, 101, 97, 114>>,
+    <<99, 111, 100, 101, 112, 111, 105, 110, 116, 115>>,
+    <<99, 111, 117, 110, 116>>,
+    <<100, 105, 102, 102, 101, 114, 101, 110, 99, 101>>,
+    <<100, 105, 115, 99, 97, 114, 100>>,
+    <<101, 108, 101, 109, 115>>,
+    <<101, 110, 100, 115, 119, 105, 116, 104>>,
+    <<101, 120, 116, 101, 110, 100>>,
+    <<102, 105, 110, 100>>,
+    <<102, 111, 114, 109, 97, 116>>,
+    <<103, 101, 116>>,
+    <<105, 110, 100, 101, 120>>,
+    <<105, 110, 115, 101, 114, 116>>,
+    <<105, 110, 116, 101, 114, 115, 101, 99, 116, 105, 111, 110>>,
+    <<105, 115, 97, 108, 110, 117, 109>>,
+    <<105, 115, 97, 108, 112, 104, 97>>,
+    <<105, 115, 100, 105, 103, 105, 116>>,
+    <<105, 115, 108, 111, 119, 101, 114>>,
+    <<105, 115, 115, 112, 97, 99, 101>>,
+    <<105, 115, 115, 117, 98, 115, 101, 116>>,
+    <<105, 115, 115, 117, 112, 101, 114, 115, 101, 116>>,
+    <<105, 115, 116, 105, 116, 108, 101>>,
+    <<105, 115, 117, 112, 112, 101, 114>>,
+    <<105, 116, 101, 109, 115>>,
+    <<106, 111, 105, 110>>,
+    <<107, 101, 121, 115>>,
+    <<108, 111, 119, 101, 114>>,
+    <<108, 115, 116, 114, 105, 112>>,
+    <<112, 97, 114, 116, 105, 116, 105, 111, 110>>,
+    <<112, 111, 112>>,
+    <<112, 111, 112, 105, 116, 101, 109>>,
+    <<114, 101, 109, 111, 118, 101>>,
+    <<114, 101, 109, 111, 118, 101, 112, 114, 101, 102, 105, 120>>,
+    <<114, 101, 109, 111, 118, 101, 115, 117, 102, 102, 105, 120>>,
+    <<114, 101, 112, 108, 97, 99, 101>>,
+    <<114, 102, 105, 110, 100>>,
+    <<114, 105, 110, 100, 101, 120>>,
+    <<114, 112, 97, 114, 116, 105, 116, 105, 111, 110>>,
+    <<114, 115, 112, 108, 105, 116>>,
+    <<114, 115, 116, 114, 105, 112>>,
+    <<115, 101, 116, 100, 101, 102, 97, 117, 108, 116>>,
+    <<115, 112, 108, 105, 116>>,
+    <<115, 112, 108, 105, 116, 108, 105, 110, 101, 115>>,
+    <<115, 116, 97, 114, 116, 115, 119, 105, 116, 104>>,
+    <<115, 116, 114, 105, 112>>,
+    <<115, 121, 109, 109, 101, 116, 114, 105, 99, 95, 100, 105, 102, 102, 101, 114, 101, 110, 99, 101>>,
+    <<116, 105, 116, 108, 101>>,
+    <<117, 110, 105, 111, 110>>,
+    <<117, 112, 100, 97, 116, 101>>,
+    <<117, 112, 112, 101, 114>>,
+    <<118, 97, 108, 117, 101, 115>>>>
+(* a method name given as a string value of the language -> the name as this specification writes it ("" if none) *)
+NameOfCP(c) == IF \E i \in 1..Len(MethodCPs) : MethodCPs[i] = c
+               THEN MethodNames[CHOOSE i \in 1..Len(MethodCPs) : MethodCPs[i] = c] ELSE ""
+HasMethod(v, name, h) ==
+    IF IsList(v, h) THEN name \in ListMethods
+    ELSE IF IsDict(v, h) THEN name \in DictMethods
+    ELSE IF IsSet(v, h) THEN name \in SetMethods
+    ELSE IF v.t = "str" THEN name \in StrMethods
+    ELSE FALSE
+GetAttr(v, name, ncp, m, line) ==
+    IF v.t = "struct" THEN
+        (LET j == FieldIdx(v.ks, ncp) IN IF j # 0 THEN R(m, v.vs[j]) ELSE R(Raise(m, "attr", line), NoneV))
+    ELSE IF HasMethod(v, name, m.heap) THEN R(m, BmV(name, v))
+    ELSE R(Raise(m, "attr", line), NoneV)
 
 (* ------------------------------------------------------------------ the interpreter *)
 RECURSIVE E(_, _, _), EvalSeq(_, _, _, _, _), X(_, _, _), ExecB(_, _, _, _), CallV(_, _, _, _, _, _),
@@ -398,8 +506,19 @@ E(e, env, m) ==
              a == EvalSeq(e.args, 1, env, o.m, <<>>)
              n == EvalNamed(e.named, 1, env, a.m, <<>>) IN
          IF ~Ok(n.m) THEN R(n.m, NoneV)
+         ELSE IF o.v.t = "struct" THEN       \* a field holding a callable
+            (LET fv == GetAttr(o.v, e.name, e.ncp, n.m, e.line) IN
+             IF ~Ok(fv.m) THEN fv ELSE CallV(fv.v, a.vs, n.vs, n.m, e.line, TRUE))
          ELSE IF n.m.depth + 1 >= n.m.cap THEN R(Raise(n.m, "depth", e.line), NoneV)
          ELSE CallMethod(o.v, e.name, a.vs, n.vs, n.m, e.line))
+    ELSE IF e.k = "dot" THEN
+        (LET o == E(e.e, env, m) IN IF ~Ok(o.m) THEN o ELSE GetAttr(o.v, e.name, e.ncp, o.m, e.line))
+    ELSE IF e.k = "fstr" THEN
+        \* f"lit0{n1}lit1..." : every name is read (left to right), then rendered with str()
+        (LET vs == EvalSeq([i \in 1..Len(e.names) |-> [k |-> "var", n |-> e.names[i], line |-> e.line]], 1, env, m, <<>>) IN
+         IF ~Ok(vs.m) THEN R(vs.m, NoneV)
+         ELSE IF \E i \in 1..Len(vs.vs) : ~ReprDomain(vs.vs[i], vs.m.heap, 8) THEN R(Raise(vs.m, "spec_domain", e.line), NoneV)
+         ELSE R(vs.m, StrV(e.lits[1] \o JoinSeq([i \in 1..Len(vs.vs) |-> Str(vs.vs[i], vs.m.heap) \o e.lits[i + 1]], <<>>, 1))))
     ELSE R(Raise(m, "spec_domain", e.line), NoneV)
 
 (* comprehension clauses.  e: the comprehension node; ci: index of the clause being run;
@@ -678,11 +797,42 @@ CallBuiltin(name, pos, named, m, line) ==
         (IF n > 1 \/ Len(named) # 0 THEN Arity(m, line)
          ELSE IF n = 0 THEN R(m, BoolV(FALSE)) ELSE R(m, BoolV(Truth(pos[1], h))))
     ELSE IF name = "int" THEN
-        (IF n # 1 \/ Len(named) # 0 THEN R(Raise(m, "spec_domain", line), NoneV)
+        (IF n < 1 \/ n > 2 \/ Len(named) # 0 THEN R(Raise(m, "spec_domain", line), NoneV)
+         ELSE IF n = 2 THEN
+            (IF pos[1].t # "str" \/ pos[2].t # "int" THEN R(Raise(m, "spec_domain", line), NoneV)
+             ELSE IF pos[2].v < 2 \/ pos[2].v > 36 THEN R(Raise(m, "spec_domain", line), NoneV)
+             ELSE LET p == ParseInt(pos[1].s, pos[2].v) IN
+                  IF ~p.dom THEN R(Raise(m, "spec_domain", line), NoneV)
+                  ELSE IF ~p.ok THEN R(Raise(m, "value", line), NoneV) ELSE R(m, IntV(p.v)))
          ELSE IF pos[1].t = "int" THEN R(m, pos[1])
          ELSE IF pos[1].t = "bool" THEN R(m, IntV(IF pos[1].b THEN 1 ELSE 0))
-         ELSE IF pos[1].t = "str" THEN R(Raise(m, "spec_domain", line), NoneV)
+         ELSE IF pos[1].t = "str" THEN
+            (LET p == ParseInt(pos[1].s, 10) IN
+             IF ~p.dom THEN R(Raise(m, "spec_domain", line), NoneV)
+             ELSE IF ~p.ok THEN R(Raise(m, "value", line), NoneV) ELSE R(m, IntV(p.v)))
          ELSE TypeE(m, line))
+    ELSE IF name = "struct" THEN
+        (IF n # 0 THEN Arity(m, line)
+         ELSE IF \E i, j \in 1..Len(named) : i < j /\ named[i][1] = named[j][1] THEN Arity(m, line)
+         ELSE R(m, StructV([q \in 1..Len(named) |-> named[q][1]], [q \in 1..Len(named) |-> named[q][2]])))
+    ELSE IF name = "chr" THEN
+        (IF n # 1 \/ Len(named) # 0 THEN Arity(m, line)
+         ELSE IF pos[1].t # "int" THEN TypeE(m, line)
+         ELSE IF pos[1].v < 0 \/ pos[1].v > 1114111 THEN R(Raise(m, "value", line), NoneV)
+         ELSE IF pos[1].v >= 55296 /\ pos[1].v <= 57343 THEN R(Raise(m, "spec_domain", line), NoneV)
+         ELSE R(m, StrV(<<pos[1].v>>)))
+    ELSE IF name = "ord" THEN
+        (IF n # 1 \/ Len(named) # 0 THEN Arity(m, line)
+         ELSE IF pos[1].t # "str" THEN TypeE(m, line)
+         ELSE IF Len(pos[1].s) # 1 THEN R(Raise(m, "value", line), NoneV)
+         ELSE R(m, IntV(pos[1].s[1])))
+    ELSE IF name = "getattr" \/ name = "hasattr" THEN
+        (IF Len(named) # 0 \/ n < 2 \/ (name = "hasattr" /\ n # 2) \/ n > 3 THEN Arity(m, line)
+         ELSE IF pos[2].t # "str" THEN TypeE(m, line)
+         ELSE LET g == GetAttr(pos[1], NameOfCP(pos[2].s), pos[2].s, m, line) IN
+              IF name = "hasattr" THEN R(m, BoolV(Ok(g.m)))
+              ELSE IF Ok(g.m) THEN g
+              ELSE IF n = 3 THEN R(m, pos[3]) ELSE g)
     ELSE IF name = "str" \/ name = "repr" THEN
         (IF n # 1 \/ Len(named) # 0 THEN Arity(m, line)
          ELSE IF ~ReprDomain(pos[1], h, 8) THEN R(Raise(m, "spec_domain", line), NoneV)
@@ -743,7 +893,7 @@ CallBuiltin(name, pos, named, m, line) ==
 (* ------------------------------------------------------------------ methods *)
 CallMethod(o, name, pos, named, m, line) ==
     LET h == m.heap n == Len(pos) Attr == R(Raise(m, "attr", line), NoneV) IN
-    IF Len(named) # 0 THEN R(Raise(m, "spec_domain", line), NoneV)
+    IF Len(named) # 0 /\ ~(o.t = "str" /\ name = "format") /\ ~(IsDict(o, h) /\ name = "update") THEN R(Raise(m, "spec_domain", line), NoneV)
     ELSE IF IsList(o, h) THEN
         (LET items == h[o.a].items IN
          IF name = "append" THEN
@@ -785,9 +935,13 @@ CallMethod(o, name, pos, named, m, line) ==
              ELSE LET m1 == CanMutate(m, o.a, line) IN
                   IF ~Ok(m1) THEN R(m1, NoneV) ELSE R([m EXCEPT !.heap[o.a].items = <<>>], NoneV))
          ELSE IF name = "index" THEN
-            (IF n # 1 THEN R(Raise(m, "spec_domain", line), NoneV)
-             ELSE LET j == SeqFind(items, pos[1], h) IN
-                  IF j = 0 THEN R(Raise(m, "value", line), NoneV) ELSE R(m, IntV(j - 1)))
+            (IF n < 1 \/ n > 3 THEN Arity(m, line)
+             ELSE IF \E q \in 2..n : pos[q].t \notin {"int", "none"} THEN TypeE(m, line)
+             ELSE LET lo == WinLo(Len(items), IF n >= 2 THEN OptInt(pos[2]) ELSE Opt(FALSE, 0))
+                      hi == WinHi(Len(items), IF n >= 3 THEN OptInt(pos[3]) ELSE Opt(FALSE, 0))
+                      c == {j \in (lo + 1)..hi : Eq(items[j], pos[1], h)} IN
+                  IF c = {} THEN R(Raise(m, "value", line), NoneV)
+                  ELSE R(m, IntV((CHOOSE j \in c : \A q \in c : j <= q) - 1)))
          ELSE Attr)
     ELSE IF IsDict(o, h) THEN
         (LET d == h[o.a] IN
@@ -816,13 +970,31 @@ CallMethod(o, name, pos, named, m, line) ==
                        IF ~Ok(m1) THEN R(m1, NoneV)
                        ELSE R([m EXCEPT !.heap[o.a].keys = Append(@, pos[1]), !.heap[o.a].vals = Append(d.vals, dv)], dv))
          ELSE IF name = "update" THEN
-            (IF n # 1 THEN R(Raise(m, "spec_domain", line), NoneV)
-             ELSE IF ~IsDict(pos[1], h) THEN R(Raise(m, "spec_domain", line), NoneV)
-             ELSE LET m1 == CanMutate(m, o.a, line)
-                      src == h[pos[1].a]
-                      nd == DictFromPairs(src.keys, src.vals, 1, d.keys, d.vals, h) IN
+            \* update([mapping | iterable of pairs], **kwargs): positional part first, then the named
+            (IF n > 1 THEN Arity(m, line)
+             ELSE LET base == IF n = 0 THEN [ok |-> TRUE, ks |-> <<>>, vs |-> <<>>]
+                              ELSE IF IsDict(pos[1], h) THEN [ok |-> TRUE, ks |-> h[pos[1].a].keys, vs |-> h[pos[1].a].vals]
+                              ELSE LET io == IterOf(pos[1], h) IN
+                                   IF io.ok /\ \A i \in 1..Len(io.items) :
+                                         LET pr == IterOf(io.items[i], h) IN pr.ok /\ Len(pr.items) = 2 /\ Hashable(pr.items[1], h)
+                                   THEN [ok |-> TRUE, ks |-> [i \in 1..Len(io.items) |-> IterOf(io.items[i], h).items[1]],
+                                                      vs |-> [i \in 1..Len(io.items) |-> IterOf(io.items[i], h).items[2]]]
+                                   ELSE [ok |-> FALSE, ks |-> <<>>, vs |-> <<>>]
+                      m1 == CanMutate(m, o.a, line) IN
+                  IF ~base.ok THEN R(Raise(m, "spec_domain", line), NoneV)     \* which error: not specified
+                  ELSE IF ~Ok(m1) THEN R(m1, NoneV)
+                  ELSE LET ks == base.ks \o [q \in 1..Len(named) |-> StrV(named[q][1])]
+                           vs == base.vs \o [q \in 1..Len(named) |-> named[q][2]]
+                           nd == DictFromPairs(ks, vs, 1, d.keys, d.vals, h) IN
+                       R([m EXCEPT !.heap[o.a].keys = nd.keys, !.heap[o.a].vals = nd.vals], NoneV))
+         ELSE IF name = "popitem" THEN
+            \* this implementation's dialect: removes and returns the FIRST item (the reference
+            \* language removes the last); programs of the shared core do not use it
+            (IF n # 0 THEN Arity(m, line)
+             ELSE LET m1 == CanMutate(m, o.a, line) IN
                   IF ~Ok(m1) THEN R(m1, NoneV)
-                  ELSE R([m EXCEPT !.heap[o.a].keys = nd.keys, !.heap[o.a].vals = nd.vals], NoneV))
+                  ELSE IF Len(d.keys) = 0 THEN R(Raise(m, "value", line), NoneV)
+                  ELSE R([m EXCEPT !.heap[o.a].keys = Tail(@), !.heap[o.a].vals = Tail(d.vals)], TupV(<<d.keys[1], d.vals[1]>>)))
          ELSE IF name = "clear" THEN
             (IF n # 0 THEN Arity(m, line)
              ELSE LET m1 == CanMutate(m, o.a, line) IN
@@ -869,43 +1041,112 @@ CallMethod(o, name, pos, named, m, line) ==
                   ELSE IF \E i \in 1..Len(io.items) : ~Hashable(io.items[i], h) THEN R(Raise(m, "not_hashable", line), NoneV)
                   ELSE NewSet(m, Dedup(items \o io.items, 1, <<>>, h)))
          ELSE IF name \in {"intersection", "difference", "symmetric_difference", "issubset", "issuperset"} THEN
-            R(Raise(m, "spec_domain", line), NoneV)
+            (IF n # 1 THEN R(Raise(m, "spec_domain", line), NoneV)
+             ELSE LET io == IterOf(pos[1], h) IN
+                  IF ~io.ok THEN TypeE(m, line)
+                  ELSE IF \E i \in 1..Len(io.items) : ~Hashable(io.items[i], h) THEN R(Raise(m, "not_hashable", line), NoneV)
+                  ELSE LET ys == Dedup(io.items, 1, <<>>, h) IN
+                       IF name = "intersection" THEN NewSet(m, SetOp("&", items, ys, h))
+                       ELSE IF name = "difference" THEN NewSet(m, SetOp("-", items, ys, h))
+                       ELSE IF name = "symmetric_difference" THEN NewSet(m, SetOp("^", items, ys, h))
+                       ELSE IF name = "issubset" THEN R(m, BoolV(\A i \in 1..Len(items) : DictFindIn(ys, items[i], h) # 0))
+                       ELSE R(m, BoolV(\A i \in 1..Len(ys) : DictFindIn(items, ys[i], h) # 0)))
          ELSE Attr)
     ELSE IF o.t = "str" THEN
-        (IF name = "upper" THEN (IF n # 0 THEN Arity(m, line) ELSE R(m, StrV(Upper(o.s))))
-         ELSE IF name = "lower" THEN (IF n # 0 THEN Arity(m, line) ELSE R(m, StrV(Lower(o.s))))
-         ELSE IF name = "strip" THEN (IF n # 0 THEN R(Raise(m, "spec_domain", line), NoneV) ELSE R(m, StrV(LStrip(RStrip(o.s)))))
-         ELSE IF name = "lstrip" THEN (IF n # 0 THEN R(Raise(m, "spec_domain", line), NoneV) ELSE R(m, StrV(LStrip(o.s))))
-         ELSE IF name = "rstrip" THEN (IF n # 0 THEN R(Raise(m, "spec_domain", line), NoneV) ELSE R(m, StrV(RStrip(o.s))))
-         ELSE IF name = "startswith" THEN
-            (IF n # 1 THEN Arity(m, line) ELSE IF pos[1].t # "str" THEN R(Raise(m, "spec_domain", line), NoneV)
-             ELSE R(m, BoolV(MatchAt(o.s, pos[1].s, 0))))
-         ELSE IF name = "endswith" THEN
-            (IF n # 1 THEN Arity(m, line) ELSE IF pos[1].t # "str" THEN R(Raise(m, "spec_domain", line), NoneV)
-             ELSE R(m, BoolV(Len(pos[1].s) <= Len(o.s) /\ MatchAt(o.s, pos[1].s, Len(o.s) - Len(pos[1].s)))))
-         ELSE IF name = "find" THEN
-            (IF n # 1 THEN R(Raise(m, "spec_domain", line), NoneV) ELSE IF pos[1].t # "str" THEN TypeE(m, line)
-             ELSE R(m, IntV(FindFrom(o.s, pos[1].s, 0))))
-         ELSE IF name = "count" THEN
-            (IF n # 1 THEN R(Raise(m, "spec_domain", line), NoneV) ELSE IF pos[1].t # "str" THEN TypeE(m, line)
-             ELSE IF Len(pos[1].s) = 0 THEN R(m, IntV(Len(o.s) + 1))
-             ELSE R(m, IntV(CountFrom(o.s, pos[1].s, 0))))
+        (LET Dom == R(Raise(m, "spec_domain", line), NoneV)
+             ValE == R(Raise(m, "value", line), NoneV)
+             ArgOpt(i) == IF i <= n THEN OptInt(pos[i]) ELSE Opt(FALSE, 0)
+             OptOk(i) == i > n \/ pos[i].t \in {"int", "none"}
+             lo == WinLo(Len(o.s), ArgOpt(2))
+             hi == WinHi(Len(o.s), ArgOpt(3))
+             StrList(parts) == NewList(m, [i \in 1..Len(parts) |-> StrV(parts[i])])
+         IN
+         IF name \in {"upper", "lower", "capitalize", "title", "isalnum", "isalpha", "isdigit", "isspace",
+                      "islower", "isupper", "istitle"} THEN
+            (IF n # 0 THEN Arity(m, line)
+             ELSE IF ~AsciiOnly(o.s) THEN Dom
+             ELSE IF name = "upper" THEN R(m, StrV(Upper(o.s)))
+             ELSE IF name = "lower" THEN R(m, StrV(Lower(o.s)))
+             ELSE IF name = "capitalize" THEN R(m, StrV(Capitalize(o.s)))
+             ELSE IF name = "title" THEN R(m, StrV(Title(o.s)))
+             ELSE IF name = "isalnum" THEN R(m, BoolV(IsAlnumS(o.s)))
+             ELSE IF name = "isalpha" THEN R(m, BoolV(IsAlphaS(o.s)))
+             ELSE IF name = "isdigit" THEN R(m, BoolV(IsDigitS(o.s)))
+             ELSE IF name = "isspace" THEN R(m, BoolV(IsSpaceS(o.s)))
+             ELSE IF name = "islower" THEN R(m, BoolV(IsLowerS(o.s)))
+             ELSE IF name = "isupper" THEN R(m, BoolV(IsUpperS(o.s)))
+             ELSE R(m, BoolV(IsTitleS(o.s))))
+         ELSE IF name \in {"strip", "lstrip", "rstrip"} THEN
+            (IF n > 1 THEN Arity(m, line)
+             ELSE IF n = 1 /\ pos[1].t = "none" THEN Dom     \* the reference accepts None; here: a type error
+             ELSE IF n = 1 /\ pos[1].t # "str" THEN TypeE(m, line)
+             ELSE IF ~AsciiOnly(o.s) THEN Dom
+             ELSE IF n = 0 THEN
+                R(m, StrV(IF name = "strip" THEN LStrip(RStrip(o.s)) ELSE IF name = "lstrip" THEN LStrip(o.s) ELSE RStrip(o.s)))
+             ELSE LET cs == pos[1].s IN
+                  R(m, StrV(IF name = "strip" THEN LStripC(RStripC(o.s, cs), cs)
+                            ELSE IF name = "lstrip" THEN LStripC(o.s, cs) ELSE RStripC(o.s, cs))))
+         ELSE IF name = "startswith" \/ name = "endswith" THEN
+            (IF n < 1 \/ n > 3 THEN Arity(m, line)
+             ELSE IF ~(pos[1].t = "str" \/ (pos[1].t = "tuple" /\ \A q \in 1..Len(pos[1].v) : pos[1].v[q].t = "str")) THEN TypeE(m, line)
+             ELSE IF ~OptOk(2) \/ ~OptOk(3) THEN TypeE(m, line)
+             ELSE LET ps == IF pos[1].t = "str" THEN <<pos[1].s>> ELSE [q \in 1..Len(pos[1].v) |-> pos[1].v[q].s]
+                      w == IF hi >= lo THEN SubSeq(o.s, lo + 1, hi) ELSE <<>> IN
+                  IF lo > hi THEN Dom         \* an inverted window: the reference language has its own rule
+                  ELSE IF name = "startswith" THEN R(m, BoolV(\E q \in 1..Len(ps) : MatchAt(w, ps[q], 0)))
+                  ELSE R(m, BoolV(\E q \in 1..Len(ps) : Len(ps[q]) <= Len(w) /\ MatchAt(w, ps[q], Len(w) - Len(ps[q])))))
+         ELSE IF name \in {"find", "rfind", "index", "rindex", "count"} THEN
+            (IF n < 1 \/ n > 3 THEN Arity(m, line)
+             ELSE IF pos[1].t # "str" \/ ~OptOk(2) \/ ~OptOk(3) THEN TypeE(m, line)
+             ELSE IF Len(pos[1].s) = 0 /\ n > 1 THEN Dom       \* empty needle in a window: outside the shared core
+             ELSE LET nd == pos[1].s
+                      r == IF name = "count" THEN (IF Len(nd) = 0 THEN Len(o.s) + 1 ELSE CountIn(o.s, nd, lo, hi))
+                           ELSE IF name = "find" \/ name = "index" THEN FindIn(o.s, nd, lo, hi)
+                           ELSE RFindIn(o.s, nd, lo, hi) IN
+                  IF r = -1 /\ (name = "index" \/ name = "rindex") THEN ValE ELSE R(m, IntV(r)))
          ELSE IF name = "replace" THEN
-            (IF n # 2 THEN R(Raise(m, "spec_domain", line), NoneV)
+            (IF n < 2 \/ n > 3 THEN Arity(m, line)
              ELSE IF pos[1].t # "str" \/ pos[2].t # "str" THEN TypeE(m, line)
-             ELSE IF Len(pos[1].s) = 0 THEN R(Raise(m, "spec_domain", line), NoneV)
-             ELSE R(m, StrV(StrReplaceAll(o.s, pos[1].s, pos[2].s))))
-         ELSE IF name = "split" THEN
-            (IF n # 1 THEN R(Raise(m, "spec_domain", line), NoneV)
+             ELSE IF n = 3 /\ pos[3].t \notin {"int", "none"} THEN TypeE(m, line)
+             ELSE IF n = 3 /\ pos[3].t = "int" /\ pos[3].v < 0 THEN Dom    \* the reference: all; here: an error
+             ELSE R(m, StrV(ReplaceMax(o.s, pos[1].s, pos[2].s, IF n = 3 /\ pos[3].t = "int" THEN pos[3].v ELSE -1))))
+         ELSE IF name = "split" \/ name = "rsplit" THEN
+            (IF n > 2 THEN Arity(m, line)
+             ELSE IF n >= 1 /\ pos[1].t \notin {"str", "none"} THEN TypeE(m, line)
+             ELSE IF ~OptOk(2) THEN TypeE(m, line)
+             ELSE LET k == IF n = 2 /\ pos[2].t = "int" THEN (IF pos[2].v < 0 THEN -1 ELSE pos[2].v) ELSE -1 IN
+                  IF n = 0 \/ pos[1].t = "none" THEN
+                      (IF ~AsciiOnly(o.s) THEN Dom
+                       ELSE StrList(IF name = "split" THEN SplitWs(o.s, k) ELSE RSplitWs(o.s, k)))
+                  ELSE IF Len(pos[1].s) = 0 THEN Dom         \* the reference: an error; here: per-character
+                  ELSE StrList(IF name = "split" THEN SplitMax(o.s, pos[1].s, k) ELSE RSplitMax(o.s, pos[1].s, k)))
+         ELSE IF name = "partition" \/ name = "rpartition" THEN
+            (IF n # 1 THEN Arity(m, line)
              ELSE IF pos[1].t # "str" THEN TypeE(m, line)
-             ELSE IF Len(pos[1].s) = 0 THEN R(Raise(m, "spec_domain", line), NoneV)
-             ELSE LET parts == SplitOn(o.s, pos[1].s) IN NewList(m, [i \in 1..Len(parts) |-> StrV(parts[i])]))
+             ELSE IF Len(pos[1].s) = 0 THEN ValE
+             ELSE LET t == IF name = "partition" THEN Partition(o.s, pos[1].s) ELSE RPartition(o.s, pos[1].s) IN
+                  R(m, TupV(<<StrV(t[1]), StrV(t[2]), StrV(t[3])>>)))
+         ELSE IF name = "splitlines" THEN
+            (IF n > 1 THEN Arity(m, line)
+             ELSE IF n = 1 /\ pos[1].t # "bool" THEN (IF pos[1].t = "int" THEN Dom ELSE TypeE(m, line))
+             ELSE IF ~AsciiOnly(o.s) THEN Dom
+             ELSE StrList(SplitLines(o.s, n = 1 /\ pos[1].b)))
+         ELSE IF name = "removeprefix" \/ name = "removesuffix" THEN
+            (IF n # 1 THEN Arity(m, line)
+             ELSE IF pos[1].t # "str" THEN TypeE(m, line)
+             ELSE LET x == pos[1].s IN
+                  IF name = "removeprefix" THEN R(m, StrV(IF MatchAt(o.s, x, 0) THEN SubSeq(o.s, Len(x) + 1, Len(o.s)) ELSE o.s))
+                  ELSE R(m, StrV(IF Len(x) <= Len(o.s) /\ MatchAt(o.s, x, Len(o.s) - Len(x)) THEN SubSeq(o.s, 1, Len(o.s) - Len(x)) ELSE o.s)))
+         ELSE IF name = "format" THEN
+            (LET f == DotFormat(o.s, pos, [q \in 1..Len(named) |-> named[q][1]], [q \in 1..Len(named) |-> named[q][2]], h) IN
+             IF f.kind = "" THEN R(m, StrV(f.s)) ELSE R(Raise(m, f.kind, line), NoneV))
          ELSE IF name = "join" THEN
             (IF n # 1 THEN Arity(m, line)
              ELSE LET io == IterOf(pos[1], h) IN
                   IF ~io.ok THEN TypeE(m, line)
                   ELSE IF \E i \in 1..Len(io.items) : io.items[i].t # "str" THEN TypeE(m, line)
                   ELSE R(m, StrV(JoinSeq([i \in 1..Len(io.items) |-> io.items[i].s], o.s, 1))))
+         ELSE IF name \in {"elems", "codepoints"} THEN Dom
          ELSE Attr)
     ELSE Attr
 
